@@ -77,4 +77,20 @@ REGISTRY = {
         "assumptions": ["spec/Scope.tla recomputes scopes from the open-element stack of the tag tree and the reference match sets of spec/Selectors.tla; it shares no bookkeeping scheme with lol-html",
                         "invocations are attributed to document items by source offset (plumbing); the order among end-tag handlers of different elements closed by one end tag and among several end handlers is not constrained"],
     },
+    "C07": {
+        "level": "model_checking",
+        "traces": [{"job": "c07", "module": "TraceEdit", "cfg": "TraceEdit.cfg", "timeout": 1200, "timeout_thorough": 10800}],
+        "mc": [],
+        "assumptions": ["spec/Edit.tla is the reading of the rustdoc of Element/StartTag/EndTag/Comment/TextChunk/Doctype/DocumentEnd (accumulation order, removal of inner edits, void no-ops); it is applied to the operations the handlers were observed to perform in the same run",
+                        "a modified start tag is expected as '<name attr...>' with untouched attributes' source bytes, one space before each attribute and ' /' kept for self-closing syntax (the current serialisation format)",
+                        "unspecified by the documentation and taken from the code: remove() after replace() keeps the replacement; end-side content of elements still open at the end is dropped",
+                        "UTF-8 documents, ASCII content strings (encoding of inserted content is C13)"],
+    },
+    "C08": {
+        "level": "model_checking",
+        "traces": [{"job": "c08", "module": "TraceSafe", "cfg": "TraceSafe.cfg", "timeout": 1200, "timeout_thorough": 10800}],
+        "mc": [],
+        "assumptions": TOK_ASSUME + ["structure is compared on the reference tokenization of output and input (kinds, names, attribute names and values with &quot; undone, comment data); text content is compared with &lt; &gt; &amp; undone, in data / RCDATA context",
+                                     "'cannot be decoded differently in another supported encoding' rests on the assumption, stated in DESIGN.md, that no multi-byte trail byte of a supported encoding equals a structural ASCII byte; not re-checked here"],
+    },
 }
